@@ -466,6 +466,12 @@ def zstd_decode_all(e, c, a):
         if i >= len(tab):
             return err(io_err("zstd: unknown token"))
         return ok(VecObj(list(tab[i])))
+    if hi - lo == 4 and e.branch(e.binop("Eq", l[lo], Int(8, 0, ZMAGIC + 3))):
+        key = bytes(e.concretize(x, 255) for x in l[lo + 1:lo + 4])
+        body = e.h.get("zstd_hash_table", {}).get(key)
+        if body is None:
+            return err(io_err("zstd: unknown token"))
+        return ok(VecObj([Int(8, 0, b) for b in body]))
     if hi - lo >= 3 and e.branch(e.binop("Eq", l[lo], Int(8, 0, ZMAGIC + 1))):
         n = e.concretize(l[lo + 1], 255) + 256 * e.concretize(l[lo + 2], 255)
         if lo + 3 + n > hi:
@@ -593,7 +599,28 @@ def zstd_cctx_compress(e, c, a):
     l, lo, hi = e.seq_of(src); n = hi - lo
     bound = n + (n >> 8) + (((128 << 10) - n) >> 11 if n < (128 << 10) else 0)
     opts = [n + 1] + ([bound] if bound > n + 1 else []) + ([2] if n > 2 else [])
-    need = opts[e.choose(len(opts))] if len(opts) > 1 else opts[0]
+    mode = e.h.get("zstd_mode")            # harness-selected deterministic codec: "token" (always compresses) / "store" (never shrinks)
+    if mode == "token":
+        conc = all(x.conc() for x in l[lo:hi])
+        if n > 4 and conc:
+            # content-addressed 4-byte frame: the codec is a function of its input (no dependence on call order)
+            import hashlib
+            body = bytes(x.v for x in l[lo:hi])
+            key = hashlib.sha1(body).digest()[:3]
+            tab = e.h.setdefault("zstd_hash_table", {})
+            if tab.setdefault(key, body) != body:
+                raise Unsupported("zstd stub: hash collision")
+            dl, dlo, dhi = e.seq_of(dst)
+            if dhi - dlo < 4:
+                return err(usize(70))
+            dl[dlo:dlo + 4] = [Int(8, 0, ZMAGIC + 3)] + [Int(8, 0, b) for b in key]
+            e.notes["zstd_frame_lengths"] = "4 (content-addressed token) for inputs longer than 4 bytes, else n+1"
+            return ok(usize(4))
+        need = n + 1 if conc or n <= 2 else 2
+    elif mode == "store":
+        need = n + 1
+    else:
+        need = opts[e.choose(len(opts))] if len(opts) > 1 else opts[0]
     dl, dlo, dhi = e.seq_of(dst)
     if dhi - dlo < need:
         return err(usize(70))
